@@ -250,8 +250,10 @@ class RigidBody:
             self.artist_.set_data(body2origin, vertices=self.vertices_, tetrahedra=self.tetrahedra_)
 
     def aabb(self):
-        """The aabb of the rigidbody"""
-        return self.aabb_tree.get_root_aabb()
+        """The aabb of the rigidbody in the world frame"""
+        vertices_in_world = transform_points(self.body2origin_, self.vertices_)
+        return np.column_stack((np.min(vertices_in_world, axis=0),
+                                np.max(vertices_in_world, axis=0)))
 
     @property
     def aabbs(self):
